@@ -387,6 +387,143 @@ Proof.
     apply res_kind_last, py_for_unit_kind. intros x _. cbv beta zeta. apply res_kind_last, GenTie_nominator.
 Qed.
 
+(* ---- InvalidVoteEliminator.convert: ballots rejected with a VoteError are collected and deleted from a copy of the dictionary;
+   any other exception of the validator propagates.  The dictionary is an association list with pairwise different keys. *)
+Lemma obj_eqb_refl : forall o, obj_eqb o o = true.
+Proof.
+  fix IH 1. intros o.
+  assert (HL : forall l : list pyobj, (forall x, In x l -> obj_eqb x x = true) ->
+     (fix list_eqb (l m : list pyobj) {struct l} : bool :=
+        match l, m with
+        | [], [] => true
+        | x :: l', y :: m' => obj_eqb x y && list_eqb l' m'
+        | _, _ => false
+        end) l l = true).
+  { induction l as [|a t IHt]; intros H; [reflexivity|]. rewrite (H a (or_introl eq_refl)). apply IHt. intros x Hx. apply H. right. exact Hx. }
+  destruct o as [k i|n d| |l|l|l]; cbn [obj_eqb].
+  - destruct k as [|hp| | |]; cbn [ckind_eqb andb]; try apply Pos.eqb_refl. rewrite Bool.eqb_reflx. apply Pos.eqb_refl.
+  - rewrite Z.eqb_refl. apply Pos.eqb_refl.
+  - reflexivity.
+  - apply HL. induction l as [|a t IHt]; intros x Hx; [destruct Hx|]. destruct Hx as [<-|Hx]; [apply IH|apply IHt, Hx].
+  - apply HL. induction l as [|a t IHt]; intros x Hx; [destruct Hx|]. destruct Hx as [<-|Hx]; [apply IH|apply IHt, Hx].
+  - apply HL. induction l as [|a t IHt]; intros x Hx; [destruct Hx|]. destruct Hx as [<-|Hx]; [apply IH|apply IHt, Hx].
+Qed.
+
+Fixpoint keys_distinct (votes : list (pyobj * Z)) : bool :=
+  match votes with
+  | [] => true
+  | (k, _) :: t => forallb (fun e => negb (obj_eqb (fst e) k)) t && keys_distinct t
+  end.
+
+Definition elim_kind (r : list (pyobj * Z) + pyvexn) : option elim_result :=
+  match r with
+  | inl kept => Some (EOk kept)
+  | inr PyCandidateError => Some ECandError
+  | inr PyTypeError => Some ECrash
+  | inr _ => None
+  end.
+
+Definition is_vote_error (r : vresult) : bool := match r with VVoteError => true | _ => false end.
+Definition is_ok (r : vresult) : bool := match r with VOk => true | _ => false end.
+
+(* deleting keys that all differ from the first key leaves the first entry in place *)
+Lemma del_skip (k : pyobj) (n : Z) f : (forall d x, f d x = match py_dict_del d x with inl d' => inl d' | inr e => inr e end) ->
+  forall ks d d', (forall k', In k' ks -> obj_eqb k' k = false) ->
+  py_for ks f d = inl d' -> py_for ks f ((k, n) :: d) = inl ((k, n) :: d').
+Proof.
+  intros Hf. induction ks as [|x t IH]; intros d d' Hk H.
+  - simpl in *. congruence.
+  - cbn [py_for] in *. rewrite Hf in *. cbn [py_dict_del]. rewrite (Hk x (or_introl eq_refl)).
+    destruct (py_dict_del d x) as [d1|e]; [|discriminate]. apply IH; [|exact H]. intros k' Hk'. apply Hk. right. exact Hk'.
+Qed.
+
+Lemma del_filter f : (forall d x, f d x = match py_dict_del d x with inl d' => inl d' | inr e => inr e end) ->
+  forall (p : pyobj * Z -> bool) votes, keys_distinct votes = true ->
+  py_for (map fst (filter p votes)) f votes = inl (filter (fun e => negb (p e)) votes).
+Proof.
+  intros Hf p. induction votes as [|[k n] t IH]; intros Hd; [reflexivity|].
+  cbn [keys_distinct] in Hd. apply andb_true_iff in Hd. destruct Hd as [Hk Hd]. cbn [filter].
+  destruct (p (k, n)); cbn [negb map fst py_for].
+  - rewrite Hf. cbn [py_dict_del]. rewrite obj_eqb_refl. apply IH, Hd.
+  - apply (del_skip k n f Hf); [|apply IH, Hd]. intros k' Hk'. apply in_map_iff in Hk'. destruct Hk' as (e & <- & He).
+    apply filter_In in He. destruct He as [He _]. rewrite forallb_forall in Hk. apply negb_true_iff, Hk, He.
+Qed.
+
+(* the collecting loop, for any body that keeps the list on acceptance, appends the ballot on a VoteError and propagates the rest *)
+Lemma collect_loop (validator : pyobj -> unit + pyvexn) (validate : pyobj -> vresult) f :
+  (forall o, res_kind (validator o) = Some (validate o)) ->
+  (forall acc o, f acc o = match validator o with
+                           | inl _ => inl acc
+                           | inr e => if is_vote_error (match exn_kind e with Some r => r | None => VOk end) then inl (acc ++ [o]) else inr e
+                           end) ->
+  forall votes acc,
+  match eliminate validate votes with
+  | EOk kept => py_for (map fst votes) f acc = inl (acc ++ map fst (filter (fun e => is_vote_error (validate (fst e))) votes))
+                /\ kept = filter (fun e => negb (is_vote_error (validate (fst e)))) votes
+  | ECandError => py_for (map fst votes) f acc = inr PyCandidateError
+  | ECrash => py_for (map fst votes) f acc = inr PyTypeError
+  end.
+Proof.
+  intros Hv Hf. induction votes as [|[b n] t IH]; intros acc.
+  - simpl. rewrite app_nil_r. split; reflexivity.
+  - cbn [eliminate map fst py_for filter]. rewrite Hf. pose proof (Hv b) as Hb.
+    destruct (validator b) as [u|e]; simpl in Hb.
+    + injection Hb as <-. cbn [is_vote_error negb]. specialize (IH acc).
+      destruct (eliminate validate t) as [kept| |]; [|exact IH|exact IH]. destruct IH as [-> ->]. split; reflexivity.
+    + rewrite Hb. destruct e; simpl in Hb; try discriminate; injection Hb as <-; cbn [is_vote_error negb]; try reflexivity;
+        (specialize (IH (acc ++ [b])); destruct (eliminate validate t) as [kept| |]; [|exact IH|exact IH];
+         destruct IH as [-> ->]; split; [rewrite <- app_assoc; reflexivity|reflexivity]).
+Qed.
+
+Theorem GenTie_eliminator : forall (validator : pyobj -> unit + pyvexn) (validate : pyobj -> vresult) votes,
+  (forall o, res_kind (validator o) = Some (validate o)) -> keys_distinct votes = true ->
+  elim_kind (InvalidVoteEliminator_convert validator votes) = Some (eliminate validate votes).
+Proof.
+  intros validator validate votes Hv Hd. unfold InvalidVoteEliminator_convert. cbv zeta.
+  match goal with |- context [py_for (map fst votes) ?f _] =>
+    pose proof (collect_loop validator validate f Hv) as Hloop end.
+  match type of Hloop with ?P -> _ => assert (Hbody : P); [|specialize (Hloop Hbody votes []); clear Hbody] end.
+  { intros acc o. cbv beta zeta. destruct (validator o) as [u|e]; [reflexivity|]. destruct e; reflexivity. }
+  pose proof (eliminate_spec validate votes) as Hspec.
+  destruct (eliminate validate votes) as [kept| |]; [|rewrite Hloop; reflexivity|rewrite Hloop; reflexivity].
+  destruct Hloop as [-> Hkept]. cbn [app]. cbv beta iota zeta.
+  destruct (negb (py_len_items (map fst (filter (fun e => is_vote_error (validate (fst e))) votes)) =? 0)) eqn:En.
+  - match goal with |- context [py_for _ ?f votes] =>
+      rewrite (del_filter f (fun d x => eq_refl) (fun e => is_vote_error (validate (fst e))) votes Hd) end.
+    simpl. rewrite Hkept. reflexivity.
+  - simpl. apply negb_false_iff, Z.eqb_eq in En. unfold py_len_items in En.
+    destruct (filter (fun e => is_vote_error (validate (fst e))) votes) as [|x xs] eqn:Ef; [|simpl in En; lia].
+    rewrite Hkept. f_equal. f_equal. clear - Ef. induction votes as [|a t IH]; [reflexivity|]. cbn [filter] in *.
+    destruct (is_vote_error (validate (fst a))); [discriminate|]. cbn [negb]. f_equal. apply IH, Ef.
+Qed.
+
+(* the filter around each generated validator *)
+Corollary GenTie_eliminator_simple : forall nm votes, keys_distinct votes = true ->
+  elim_kind (InvalidVoteEliminator_convert (SimpleVoteValidator_validate nm) votes) = Some (eliminate (validate_simple nm) votes).
+Proof. intros nm votes. apply GenTie_eliminator, GenTie_simple. Qed.
+Corollary GenTie_eliminator_approval : forall nm cnt votes, keys_distinct votes = true ->
+  elim_kind (InvalidVoteEliminator_convert (ApprovalVoteValidator_validate nm cnt) votes) = Some (eliminate (validate_approval nm cnt) votes).
+Proof. intros nm cnt votes. apply GenTie_eliminator, GenTie_approval. Qed.
+Corollary GenTie_eliminator_ranked : forall nm tot ranks votes, keys_distinct votes = true ->
+  elim_kind (InvalidVoteEliminator_convert (RankedVoteValidator_validate nm tot ranks) votes)
+  = Some (eliminate (validate_ranked nm tot ranks) votes).
+Proof. intros nm tot ranks votes. apply GenTie_eliminator, GenTie_ranked. Qed.
+Corollary GenTie_eliminator_enum : forall nm nsc sums levels votes, keys_distinct votes = true ->
+  elim_kind (InvalidVoteEliminator_convert (EnumScoreVoteValidator_validate nm nsc sums levels) votes)
+  = Some (eliminate (validate_score nm nsc sums (SEnum levels)) votes).
+Proof. intros nm nsc sums levels votes. apply GenTie_eliminator, GenTie_enum. Qed.
+Corollary GenTie_eliminator_range : forall nm nsc sums rb votes, keys_distinct votes = true ->
+  elim_kind (InvalidVoteEliminator_convert (RangeVoteValidator_validate nm nsc sums rb) votes)
+  = Some (eliminate (validate_score nm nsc sums (SRange rb)) votes).
+Proof. intros nm nsc sums rb votes. apply GenTie_eliminator, GenTie_range. Qed.
+
+(* non-vacuity: a two-ballot dictionary with different keys; the generated filter drops the ballot a stub validator rejects *)
+Example GenTie_eliminator_example :
+  keys_distinct [(OCand KStr 1, 3); (OCand KStr 2, 4)] = true /\
+  InvalidVoteEliminator_convert (fun o => if obj_eqb o (OCand KStr 1) then inr PyVoteTypeError else inl tt)
+    [(OCand KStr 1, 3); (OCand KStr 2, 4)] = inl [(OCand KStr 2, 4)].
+Proof. split; reflexivity. Qed.
+
 Print Assumptions GenTie_nominator.
 Print Assumptions GenTie_checker.
 Print Assumptions GenTie_checker_active.
@@ -397,3 +534,4 @@ Print Assumptions GenTie_ranked.
 Print Assumptions GenTie_score_base.
 Print Assumptions GenTie_enum.
 Print Assumptions GenTie_range.
+Print Assumptions GenTie_eliminator.
